@@ -133,7 +133,7 @@ def gen_block(rng, depth, maxdepth, plain=False, first_in_item=False):
     if r < 0.57:
         lines = [gen_words(rng)]
         for _ in range(rng.randint(0, 2)):
-            lines.append(rng.choice([gen_words(rng), "  " + gen_words(rng), "* x", "<b>"]))
+            lines.append(rng.choice([gen_words(rng), "  " + gen_words(rng), "* x", "<b>", " ```", "  ~~~~", "   ``` x", "```", "~~~ y", " `", "   ````` "]))
         return ("icode", lines)
     if r < 0.63:
         return ("hr",)
